@@ -371,4 +371,65 @@ theorem Frame.quiet (F : Frame R) (n : Net) (op : Op)
   · exact F.ofData n _ _ (opReset_cases n _)
   · exact F.tick n
 
+/-- every operation, for a relation that tolerates every node edit of the model -/
+theorem Frame.step (F : Frame R) (n : Net) (op : Op)
+    (hU : ∀ j a w, R j a (a.addUser w)) (hD : ∀ j a u, R j a (a.setDisabled u)) (hP : ∀ j a u p, R j a (a.setPassword u p))
+    (hL : ∀ j a l, R j a (a.setLoc l)) (hC : ∀ j a c, R j a (a.addConn c)) (hS : ∀ j a s, R j a (a.addSession s))
+    (hE : ∀ j a k, R j a (a.localExec k)) (hX : ∀ j a cid t k, R j a (a.remoteExec cid t k)) :
+    Net.Rel R n (step n op).1 := by
+  cases op with
+  | addUser y u p adm => exact F.toPre.addUser n y u p adm (hU y)
+  | disableUser y u => exact F.toPre.disableUser n y u (fun a => hD y a u)
+  | changePassword y u o nw => exact F.changePassword n y u o nw (fun a => hP y a u nw)
+  | localLogin y u p => simp only [Primaite.Session.step]; rw [opLocalLogin_fst]; exact F.toPre.localLogin n y u p (hL y)
+  | localCmd y u p k => exact F.toPre.localCmd n y u p k (hL y) (hC y) (fun a => hE y a k)
+  | remoteCmd x y k => exact F.remoteCmd n x y k (fun a cid t => hX y a cid t k)
+  | remoteLogin x y u p => exact F.toPre.remoteLogin n x y u p (hS y) hC
+  | localLogout y => exact F.quiet n _ trivial
+  | remoteLogoff x y => exact F.quiet n _ trivial
+  | svc y w v => exact F.quiet n _ trivial
+  | shutdown y => exact F.quiet n _ trivial
+  | startup y => exact F.quiet n _ trivial
+  | reset y => exact F.quiet n _ trivial
+  | tick => exact F.quiet n _ trivial
+
+theorem Net.Rel.none {n m : Net} (h : Net.Rel R n m) {j : Nat} (hj : n.node j = none) : m.node j = none := by
+  unfold Net.node at *
+  rw [List.getElem?_eq_none_iff] at *
+  have := h.len
+  omega
+
+/-- NIC and terminal untouched: the network path is the same -/
+def KeepPath : Nat → Node → Node → Prop := fun _ a b => b.nic = a.nic ∧ b.term = a.term
+
+theorem keepPath_pre : Pre KeepPath :=
+  { refl := fun _ _ => ⟨rfl, rfl⟩, trans := fun _ _ _ _ h1 h2 => ⟨h2.1.trans h1.1, h2.2.trans h1.2⟩ }
+
+theorem canDeliver_of_keepPath {n m : Net} (h : Net.Rel KeepPath n m) (x y : Nat) : canDeliver m x y = canDeliver n x y := by
+  unfold canDeliver
+  cases hx : n.node x with
+  | none => simp [h.none hx]
+  | some a =>
+    obtain ⟨a', ha', haa⟩ := h.node x a hx
+    cases hy : n.node y with
+    | none => simp [h.none hy, ha']
+    | some b =>
+      obtain ⟨b', hb', hbb⟩ := h.node y b hy
+      simp [ha', hb', haa.1, hbb.1, hbb.2]
+
+theorem canDeliver_afterLogin (n : Net) (x y : Nat) (u : String) (i j : Nat) :
+    canDeliver (afterLogin n x y u) i j = canDeliver n i j :=
+  canDeliver_of_keepPath (keepPath_pre.afterLogin n x y u (fun _ _ => ⟨rfl, rfl⟩) (fun _ _ => ⟨rfl, rfl⟩)) i j
+
+
+theorem Net.Rel.back_of_len {n m : Net} (h : Net.Rel R n m) {j : Nat} {b : Node} (hb : m.node j = some b) :
+    ∃ a, n.node j = some a ∧ R j a b := by
+  cases ha : n.node j with
+  | none => rw [h.none ha] at hb; cases hb
+  | some a =>
+    obtain ⟨b', hb', hab⟩ := h.node j a ha
+    rw [hb] at hb'; cases hb'
+    exact ⟨a, rfl, hab⟩
+
+
 end Primaite.Session
